@@ -75,7 +75,7 @@ type C02 struct {
 func (e *C02) ID() string    { return "C02" }
 func (e *C02) Level() string { return "exploration" }
 func (e *C02) Rule() string {
-	return "each case is one input (corpus file, 1-3 structure-aware malformations of one, a loop-targeted shape such as non-SOI markers / FF runs / zero-size boxes and iinf entries / wrapping PNG lengths / partial TIFF signatures / kilobytes of XMP white space, a size-field attack, or random bytes behind a plausible header; up to 1 MiB in the thorough tier) run through its natural entry points plus two random ones over an instrumented io.ReadSeeker. Refuted by: bytes requested (sum of len(p) over reads issued before end of input) > 4*len+64KiB, reads issued at end of input (which deliver nothing) > len/8+512, seeks > len/8+64, or the call still running after a CPU-time budget of 2s+50us*len (process rusage, not wall clock). Non-trivial: the call requested more than 64 bytes; distinct = (entry, outcome class, log2 bucket of requested/len)."
+	return "each case is one input (corpus file, 1-3 structure-aware malformations of one, a loop-targeted shape such as non-SOI markers / FF runs / zero-size boxes and iinf entries / wrapping PNG lengths / partial TIFF signatures / kilobytes of XMP white space, a size-field attack, or random bytes behind a plausible header; up to 1 MiB in the thorough tier; every 24th case one tiny unit - an 8..32-byte box of every known type in every container context, a minimal JPEG segment, PNG chunk, IFD entry, one-entry IFD chain or XMP token - tiled to 150..900 KB) run through its natural entry points plus two random ones over an instrumented io.ReadSeeker. Refuted by: bytes requested (sum of len(p) over reads issued before end of input) > 4*len+64KiB, reads issued at end of input (which deliver nothing) > len/8+512, seeks > len/8+64, or the call still running after a CPU-time budget of 2s+50us*len (process rusage, not wall clock). Non-trivial: the call requested more than 64 bytes; distinct = (entry, outcome class, log2 bucket of requested/len)."
 }
 func (e *C02) Assumptions() []string {
 	return []string{"termination is restated as bounded progress: a CPU-time budget three to four orders of magnitude above the normal cost",
@@ -99,6 +99,11 @@ func (e *C02) Run(c *core.Ctx, idx int) {
 	}
 	data, desc, fi := workInput(c, p, idx, maxLen)
 	r := c.Rng(idx, 7)
+	if idx%24 == 5 {
+		// one tiny unit tiled to hundreds of kilobytes: per-unit work adds up
+		data, desc = gen.TileShape(r, r.Range(150000, 900000))
+		fi = -2
+	}
 	var ents []int
 	if fi >= 0 {
 		ents = append(ents, p.natural[fi]...)
@@ -177,7 +182,7 @@ type C14 struct {
 func (e *C14) ID() string    { return "C14" }
 func (e *C14) Level() string { return "exploration" }
 func (e *C14) Rule() string {
-	return "inputs as in C02 (corpus, malformations, loop shapes, random) with extra weight on size-field attacks (PRVW size, iloc/iinf/ipma counts, tag counts, 32/64-bit box sizes, ftyp size, PNG chunk lengths, JPEG segment lengths set to huge values); each call runs alone in a single-goroutine worker between two runtime.ReadMemStats; refuted by TotalAlloc delta > 4MiB + 16*len(input) or by the worker dying of out-of-memory (RLIMIT_AS back-stop). Non-trivial: the call allocated anything; distinct = (entry, log2 bucket of bytes allocated per input byte)."
+	return "inputs as in C02 (corpus, malformations, loop shapes, random) with extra weight on size-field attacks (PRVW size, iloc/iinf/ipma counts, tag counts, 32/64-bit box sizes, ftyp size, PNG chunk lengths, JPEG segment lengths set to huge values) and, every 12th case, one tiny unit (an 8..32-byte box of each known type inside meta/iinf/ipco/iref/moov/the Canon uuid/the preview uuid/top level, a minimal Exif or XMP APP1 segment, PNG chunk, IFD entry, chain of one-entry IFDs, XMP token) tiled to 180 KB..1.2 MB, where per-unit allocation adds up against 16 bytes per input byte; for inputs above 96 KiB only the library's own entry points are measured (harness-composed callbacks allocate per block on the caller's account); each call runs alone in a single-goroutine worker between two runtime.ReadMemStats; refuted by TotalAlloc delta > 4MiB + 16*len(input) or by the worker dying of out-of-memory (RLIMIT_AS back-stop). Non-trivial: the call allocated anything; distinct = (entry, log2 bucket of bytes allocated per input byte)."
 }
 func (e *C14) Assumptions() []string {
 	return []string{"TotalAlloc counts heap allocation only (stack growth is not measured)", "the harness's own allocations inside a call (observation strings, 777-byte drain buffers) are inside the 4 MiB constant",
@@ -205,6 +210,12 @@ func (e *C14) Run(c *core.Ctx, idx int) {
 	}
 	data, desc, fi := workInput(c, p, idx*2+1, maxLen)
 	r := c.Rng(idx, 14)
+	if idx%12 == 5 {
+		// one tiny unit tiled to hundreds of kilobytes: what is allocated per unit adds up against
+		// 16 bytes per input byte (the 4 MiB constant hides it in small inputs)
+		data, desc = gen.TileShape(r, r.Range(180000, 1200000))
+		fi = -2
+	}
 	if fi >= 0 && r.Chance(1, 2) {
 		// allocation-site attack on top: every size-like field may become huge
 		f := p.files[fi]
@@ -234,6 +245,13 @@ func (e *C14) Run(c *core.Ctx, idx int) {
 		ent := p.entries[ei]
 		if strings.HasPrefix(ent.Name, "Clean") {
 			continue // operates on a caller-supplied copy, allocates nothing itself
+		}
+		if len(data) > 96<<10 && (strings.Contains(ent.Name, "/rec") || strings.Contains(ent.Name, "/lib")) {
+			// these compose a scanner with callbacks of the harness's choosing (recording callbacks,
+			// one xmp.ParseXmp with its own look-ahead buffer per block): what the callbacks allocate
+			// per block is the caller's, and in inputs of thousands of blocks it no longer hides in
+			// the constant. The library's own compositions (Decode*, PreviewCR3) are measured.
+			continue
 		}
 		rs := mon.NewRS(data)
 		c.SetPhase("entry=" + ent.Name + " " + desc)
